@@ -100,6 +100,12 @@ def main():
                 raise Rejected("empty selection")
         elif variant == "open_boundary":
             opts = {"include_boundary_dofs": True}
+        elif variant == "swapped":
+            # whole grid, normals swapped on one domain (drawn independently for test and trial)
+            opts = {"swapped_normals": [int(rng.choice(sorted(set(mesh.D.tolist()))))]}
+            if not mesh.is_closed_manifold() and kind in ("P1", "RWG", "SNC"):
+                opts["include_boundary_dofs"] = True
+            cls = "swapped"
         return S.make_space(api, grid, *KA[kind], **opts), opts, cls
 
     def compare(cid, descr, build, x_complex, mech_cls):
@@ -152,9 +158,11 @@ def main():
                     continue
                 for fam, k in scal:
                     for op in O.SCALAR_OPS:
-                        for variant in variants:
+                        for variant in variants + ["swapped"]:
                             if ctx.quick and (mode == "sparse" and variant == "segment"):
                                 continue
+                            if variant == "swapped" and (op == "single_layer" or (ctx.quick and (mode == "sparse" or gname != "octa_r1"))):
+                                continue   # only operators that contain the normal; quick: one grid pair per operator
                             cid = "b:%s%s:%s.%s:k=%s:%s:o%d:%s" % (gname, "|" + g2name if g2name else "", fam, op, k, variant, order, mode)
                             if not ctx.want(cid):
                                 continue
@@ -170,7 +178,7 @@ def main():
                                 r = ctx.rng(_cid, "spaces")
                                 v1 = "open_boundary" if (_g == "screen3" and _v == "whole") else _v
                                 trial, _, _ = spaces_for(_g, _tk, v1, r)
-                                test, _, _ = spaces_for(_g2 or _g, _sk, v1 if not _g2 else ("segment" if _v == "segment" else "whole"), r)
+                                test, _, _ = spaces_for(_g2 or _g, _sk, v1 if not _g2 else (_v if _v in ("segment", "swapped") else "whole"), r)
                                 return O.boundary(api, _f, _o, trial, test, test, _k, assembler=assembler)
 
                             compare(cid, descr, build, x_complex=(cases % 2 == 1), mech_cls="%s:%s" % ("scalar", variant))
@@ -236,9 +244,9 @@ def main():
     if ctx.quick or ctx.worker:
         potcfg = [potcfg[i] for i in (0, 1, 2, 5)]
     for fam, op, k, kind in potcfg:
-        for variant in variants:
+        for variant in variants + ["swapped"]:
             cid = "p:%s.%s:k=%s:%s:%s" % (fam, op, k, kind, variant)
-            if not ctx.want(cid):
+            if not ctx.want(cid) or (variant == "swapped" and op != "double_layer"):
                 continue
             with ctx.guard(cid, "fmm_potential:%s" % variant, allow=S.ALLOWED_REJECTIONS + ("empty selection",)):
                 r = ctx.rng(cid)
